@@ -24,14 +24,17 @@ m = {
     },
     "engines": [
         {"name": "verif", "path": "harness/verif", "serves_properties": sorted(CHECKS.keys()),
-         "kind_free_text": "proptest-driven generators (TestRunner with fixed ChaCha seed derived from VERIF_SEED) + independent reference integer (RefInt, u32 limbs, cross-checked against CPython) + worker processes, crash/hang attribution, two-stage shrinking, corpus replay tier"},
+         "kind_free_text": "libFuzzer target harness/fuzz (bytes -> verif::fuzzcodec -> the same Case oracles) for the thorough tier; proptest-driven generators (TestRunner with fixed ChaCha seed derived from VERIF_SEED) + independent reference integer (RefInt, u32 limbs, cross-checked against CPython) + worker processes, crash/hang attribution, two-stage shrinking, corpus replay tier"},
     ],
     "checks": [],
     "not_applicable": [{"property_id": k, "reason": v} for k, v in sorted(NOT_APPLICABLE.items())],
     "notes": "exit codes: 0 held on everything explored, 1 VIOLATION (replay file written under replays/<ID>/), 2 inconclusive (build failure, oracle self-check failure, watchdog, crashed worker that did not reproduce). known_findings.txt lists fixed and known findings.",
 }
+FUZZED = "C01 C02 C03 C04 C05 C06 C07 C08 C09 C10 C12 C13 C17 C18 C19".split()   # keep in step with ./check
 for pid in sorted(CHECKS):
     tech, text, note, ref = CHECKS[pid]
+    if pid in FUZZED:
+        tech += "; the thorough tier first runs a coverage-guided libFuzzer campaign (cargo-fuzz, ASan, 16 jobs) whose byte inputs decode into the same cases and run the same oracle"
     m["checks"].append({
         "property_id": pid,
         "quick_cmd": f"./check {pid} quick",
